@@ -244,34 +244,8 @@ func ruleGroupMisc(c *Ctx, rule string) {
 	add := c.P.MustFunc("mux.(*Group).Add")
 	an.AllInstrs(add, func(in ssa.Instruction) {
 		if base, field, _, ok := fieldStoreAny(in); ok && base == "recv" && field == "routers" {
-			dom := an.DominatedByEdge(in, func(b *ssa.BasicBlock, succ int) bool {
-				return edgeHas(b, succ, func(cond ssa.Value, truth bool) bool {
-					bo, ok := cond.(*ssa.BinOp)
-					if !ok {
-						return false
-					}
-					call, ok := bo.X.(*ssa.Call)
-					if !ok {
-						return false
-					}
-					n := an.CalleeName(&call.Call)
-					if n != "slices.IndexFunc" && n != "slices.ContainsFunc" {
-						return false
-					}
-					k, isC := bo.Y.(*ssa.Const)
-					if !isC || k.Value == nil {
-						return false
-					}
-					// IndexFunc(...) >= 0 is false  /  < 0 is true
-					switch bo.Op {
-					case token.GEQ:
-						return !truth && k.Int64() == 0
-					case token.LSS:
-						return truth && k.Int64() == 0
-					}
-					return false
-				})
-			})
+			dom := an.DominatedByEdge(in, noDuplicateNameEdge)
+			_ = dom
 			c.R.Add(rule, c.fk(add), "append/behind:no-duplicate-name", c.pos(in), dom, ifelse(dom, "the append is reachable only when no router has that name (the other edge panics)", "a router can be added under a name that is already taken"))
 		}
 	})
@@ -518,5 +492,40 @@ func ruleHeaderVersion(c *Ctx, rule string) {
 			}).Search(an.After(in))
 			c.R.Add(rule, c.fk(f), "parse-error/returns-false", c.pos(in), errV != nil && path == nil, ifelse(errV != nil && path == nil, "a header that does not parse is rejected", "an Accept header that does not parse can still be accepted"))
 		}
+	})
+}
+
+// noDuplicateNameEdge: the edge on which the duplicate-name search of Group.Add found nothing.
+func noDuplicateNameEdge(b *ssa.BasicBlock, succ int) bool {
+	return edgeHas(b, succ, func(cond ssa.Value, truth bool) bool {
+		if call, ok := cond.(*ssa.Call); ok && an.CalleeName(&call.Call) == "slices.ContainsFunc" {
+			return !truth
+		}
+		bo, ok := cond.(*ssa.BinOp)
+		if !ok {
+			return false
+		}
+		call, ok := bo.X.(*ssa.Call)
+		if !ok {
+			return false
+		}
+		if n := an.CalleeName(&call.Call); n != "slices.IndexFunc" {
+			return false
+		}
+		k, isC := bo.Y.(*ssa.Const)
+		if !isC || k.Value == nil {
+			return false
+		}
+		switch bo.Op {
+		case token.GEQ:
+			return !truth && k.Int64() == 0
+		case token.LSS:
+			return truth && k.Int64() == 0
+		case token.EQL:
+			return truth && k.Int64() == -1
+		case token.NEQ:
+			return !truth && k.Int64() == -1
+		}
+		return false
 	})
 }
